@@ -582,3 +582,12 @@ func writeResult(in *RunInput, res *Result) {
 	}
 	os.WriteFile(in.Out, b, 0o644)
 }
+
+func sortedInts(m map[int]bool) []int {
+	var ks []int
+	for k := range m {
+		ks = append(ks, k)
+	}
+	sort.Ints(ks)
+	return ks
+}
